@@ -1,0 +1,81 @@
+//go:build verif
+
+// Contracts for the deductive verifier in /verif (govc). This file is compiled only with
+// -tags verif and contains no production code: contracts are the //@ comment blocks, keyed by
+// function name and loop ordinal; lemma harnesses are ordinary functions that call the real
+// code and end in verifAssert.
+
+package server
+
+func verifAssert(label string, cond bool) {
+	if !cond {
+		panic("verif: assertion failed: " + label)
+	}
+}
+
+func verifCanary(label string, cond bool) {}
+
+// ---------------------------------------------------------------------------
+// C31: access levels gate value reads and writes
+// ---------------------------------------------------------------------------
+
+// levelOK(attr, id, flag): the access attribute id does not forbid flag. It is absent (no attribute
+// map, no entry, nil entry), or it is a byte with the flag bit set. A present attribute of another
+// type, or without a value, forbids. (From the property statement.)
+//@ pred levelOK(attr Attributes, id ua.AttributeID, flag ua.AccessLevelType) :=
+//@     attr == nil || !in(id, attr) || attr[id] == nil ||
+//@     (attr[id].Value != nil && typeis(attr[id].Value.value, uint8) &&
+//@      dyn(attr[id].Value.value, uint8) & uint8(flag) != 0)
+
+//@ pred accessOK(attr Attributes, flag ua.AccessLevelType) :=
+//@     levelOK(attr, ua.AttributeIDUserAccessLevel, flag) && levelOK(attr, ua.AttributeIDAccessLevel, flag)
+
+//@ func (Node).Access
+//@   props C31 C29
+//@   assigns nothing
+//@   ensures [C31:access] result == accessOK(n.attr, flag)
+//@   canary ensures [C31:canary-user-level-only] result == levelOK(n.attr, ua.AttributeIDUserAccessLevel, flag)
+
+// DataValueFromValue wraps a value of a fixed, supported Go type at each of its call sites in the
+// functions under contract (assumed: it returns a fresh non-nil DataValue and touches nothing else;
+// its panic for unsupported types is not reachable from those call sites).
+//@ func DataValueFromValue
+//@   props C31 C29
+//@   assumed
+//@   assigns nothing
+//@   ensures result != nil && fresh(result)
+
+// key of a node in a namespace's table
+//@ ufunc nodeKey(*ua.NodeID) string
+
+//@ func (*NodeNameSpace).Node
+//@   props C31 C33
+//@   requires as != nil
+//@   assigns held(&as.mu), released(&as.mu)
+//@   after "id.String()" assigns nothing
+//@   after "id.String()" ensures result == nodeKey(id)
+//@   ensures [C31:lookup] id == nil ==> result == nil
+//@   ensures [C31:lookup-key] id != nil ==> result == as.m[nodeKey(id)] || (result == nil && !in(nodeKey(id), as.m))
+
+// (the value callback n.val() of a node is application code: it may do anything, hence assigns *)
+//@ func (*NodeNameSpace).Attribute
+//@   props C31 C29
+//@   requires as != nil
+//@   assigns *
+//@   after "ua.MustVariant(int32(x))" assigns nothing
+//@   after "ua.MustVariant(int32(x))" ensures result != nil
+//@   ensures [C31:result] result != nil
+//@   ensures [C31:read-denied] id != nil && old(as.m[nodeKey(id)] != nil && !accessOK(as.m[nodeKey(id)].attr, ua.AccessLevelTypeCurrentRead)) ==>
+//@           result.Status == ua.StatusBadUserAccessDenied && result.Value == nil
+
+// Namespace invariant used as a precondition: nodes in the table have an attribute map (NewNode's
+// sanitize establishes it; its preservation by every constructor is not verified here).
+//@ func (*NodeNameSpace).SetAttribute
+//@   props C31 C29
+//@   requires as != nil && as.srv != nil
+//@   let n = as.m[nodeKey(id)]
+//@   requires [node-has-attrs] n != nil ==> n.attr != nil
+//@   assigns *
+//@   ensures [C31:write-denied] id != nil && n != nil && old(!accessOK(n.attr, ua.AccessLevelTypeCurrentWrite)) ==>
+//@           result == ua.StatusBadUserAccessDenied && n.val == old(n.val) && n.attr == old(n.attr) &&
+//@           (forall k ua.AttributeID :: in(k, n.attr) == old(in(k, n.attr)) && n.attr[k] == old(n.attr[k]))
